@@ -246,7 +246,7 @@ func superviseWorker(p *Prop, tier Tier, seed int64, variant string, k, stride, 
 			continue
 		}
 		// died inside case lastBegun: classify from the log
-		logtxt := tail(logf, 400)
+		logtxt := crashExcerpt(logf)
 		r := Result{Idx: lastBegun, Variant: variant}
 		origin := crashOrigin(logtxt)
 		switch origin {
@@ -298,6 +298,33 @@ func tail(path string, n int) string {
 		lines = lines[len(lines)-n:]
 	}
 	return strings.Join(lines, "\n")
+}
+
+// crashExcerpt returns the part of a crashed worker's log that starts at the first panic / fatal
+// error marker (with GOTRACEBACK=all the dump of all goroutines can be far longer than a tail).
+func crashExcerpt(path string) string {
+	b, err := os.ReadFile(path)
+	if err != nil {
+		return ""
+	}
+	if len(b) > 64<<20 {
+		b = b[:64<<20]
+	}
+	txt := string(b)
+	p := -1
+	for _, m := range []string{"\npanic: ", "\nfatal error: ", "SIGSEGV", "SIGBUS", "unexpected fault address"} {
+		if j := strings.Index(txt, m); j >= 0 && (p < 0 || j < p) {
+			p = j
+		}
+	}
+	if p < 0 {
+		return tail(path, 400)
+	}
+	txt = txt[p:]
+	if len(txt) > 200<<10 {
+		txt = txt[:200<<10]
+	}
+	return txt
 }
 
 func headLines(s string, n int) string {
@@ -385,7 +412,8 @@ func collectRaceReports(runDir string) []RaceReport {
 				}
 				if strings.HasPrefix(l, "  ") && !strings.HasPrefix(l, "      ") && strings.Contains(l, "(") && i+1 < len(lines) {
 					fn := strings.TrimSpace(l)
-					if j := strings.Index(fn, "("); j > 0 {
+					// cut the argument list only: "pkg.(*T).method(...)" keeps the receiver and method
+					if j := strings.LastIndex(fn, "("); j > 0 {
 						fn = fn[:j]
 					}
 					fnames = append(fnames, fn)
